@@ -1,0 +1,28 @@
+//go:build verif
+
+package token
+
+// Contracts for the deductive verifier in /verif (govc). Comment-only file: adds no code.
+
+// ParseToken: with no previous secret the token is checked against the secret only; with one, it is accepted
+// iff it verifies under the secret or under the previous secret, whatever the hit counters say (they only
+// choose which is tried first).
+//@ func (*Parser).ParseToken
+//@   prop C04
+//@   opaque loadCount, doParseToken, incrCount
+//@   requires p != nil
+//@   let a1 = arg(doParseToken, 2, 1)
+//@   let a2 = arg(doParseToken, 2, 2)
+//@   let e1 = ret(doParseToken, 1, 1)
+//@   let e2 = ret(doParseToken, 1, 2)
+//@   observe FirstIsSecret = a1 == secret
+//@   observe SecondIsSecret = calls(doParseToken) == 2 && a2 == secret
+//@   observe FirstFails = e1 != nil
+//@   replay token_ParseToken
+//@   ensures [single-secret] len(prevSecret) == 0 ==> calls(doParseToken) == 1 && a1 == secret && result1 == e1 && (e1 == nil ==> result0 == ret(doParseToken, 0, 1))
+//@   ensures [first-try] len(prevSecret) > 0 ==> calls(doParseToken) >= 1 && arg(doParseToken, 1, 1) == r && (a1 == secret || a1 == prevSecret)
+//@   ensures [first-accepts] len(prevSecret) > 0 && e1 == nil ==> calls(doParseToken) == 1 && result1 == nil && result0 == ret(doParseToken, 0, 1)
+//@   ensures [both-secrets-tried] len(prevSecret) > 0 && e1 != nil ==> calls(doParseToken) == 2 && arg(doParseToken, 1, 2) == r
+//@     | && ((a1 == secret && a2 == prevSecret) || (a1 == prevSecret && a2 == secret))
+//@   ensures [second-decides] len(prevSecret) > 0 && e1 != nil ==> result1 == e2 && (e2 == nil ==> result0 == ret(doParseToken, 0, 2))
+//@   ensures [error-means-no-token] result1 != nil ==> result0 == nil
